@@ -39,8 +39,9 @@ def _toktype_arg(b, t):
     return None
 
 
-ENTRY_FNS = ("new", "load", "load_from_string", "load_impl", "load_fragment", "load_fragment_file", "<impl specification::A2lFile>::write_to_string", "<impl specification::A2lFile>::write")
-ENTRY_CALLS = re.compile(r"(tokenizer::tokenize|parser::ParserState::(new|set_file_version)|ParseableA2lObject>?::parse|a2ml::parse_a2ml|loader::load|load_impl|load_fragment|fmt::Arguments::new|str::(trim\w*|strip_\w+|replace\w*)|String::(push_str|push|insert_str|insert)|fs::write|File::create|write_all|Vec::push|stringify|Writer::\w+)$")
+ENTRY_FNS = ("new", "load", "load_from_string", "load_impl", "load_fragment", "load_fragment_file", "<impl specification::A2lFile>::write_to_string", "<impl specification::A2lFile>::write",
+             "specification::A2ml::parse", "specification::A2ml::stringify")
+ENTRY_CALLS = re.compile(r"(tokenizer::tokenize|parser::ParserState::(new|set_file_version)|ParseableA2lObject>?::parse|a2ml::parse_a2ml|loader::load|load_impl|load_fragment|fmt::Arguments::new|str::(trim\w*|strip_\w+|replace\w*|split\w*|lines|rsplit\w*)|::join|Vec::(clear|pop|remove|truncate|insert|retain)|String::(push_str|push|insert_str|insert)|fs::write|File::create|write_all|Vec::push|stringify|Writer::\w+)$")
 
 
 def entry_table(prog):
